@@ -134,11 +134,16 @@ def gen_op(rng, contract=True):
     if k == 'mgp':
         # in contract: 0 <= x <= 127, 0 <= y, y + h <= 64; the right edge is crossed by 0, 1, many tiles, the bottom
         # edge can only be reached (crossing it is refused: BAD_OPS)
+        # (the extracted model reads every pixel through an O(n) list access: keep most rectangles below ~40 tiles)
         x = rng.choice([0, 0, 1, 64, 120, 125, 126, 126, 127, 127, 127])
         y = rng.choice([0, 1, 30, 31, 31, 32, 32, 33, 60, 62, 63, 63])
-        w = rng.choice([1, 1, 2, 3, 128 - x, 129 - x, 130 - x, 137 - x]) if rng.random() < 0.85 else rng.choice([128, 130, 140])
-        hs = [1, 1, 2, 3, 64 - y, 64 - y, 32 - y, 33 - y, 63 - y]
-        h = rng.choice([v for v in hs if 1 <= v <= 64 - y and (w <= 24 or v <= 3)])
+        big = rng.random() < 0.03
+        if x >= 120:
+            w = rng.choice([1, 2, 128 - x, 128 - x, 129 - x, 129 - x, 130 - x, 137 - x])
+        else:
+            w = rng.choice([128 - x, 129 - x, 140]) if big else rng.choice([1, 1, 2, 3])
+        hs = [v for v in [1, 1, 2, 3, 64 - y, 64 - y, 32 - y, 33 - y, 63 - y] if 1 <= v <= 64 - y]
+        h = rng.choice([v for v in hs if w * v <= 40 or (big and w * v <= 200)] or [1])
         return 'mgp,%d,%d,%d,%d' % (x, y, w, h)
     if k == 'msr':
         return 'msr,%d,%d,%s' % (rng.choice([0, 1, 100, 119, 120, 125, 126, 127, 128, 130]),
